@@ -18,6 +18,7 @@ OBLIGATIONS = [
     "KafVerif.C40.read_returns_fresh_buffers",
     "KafVerif.C40.handler_writes_preserve_store",
     "KafVerif.C40.aliasing_read_breaks_store",
+    "KafVerif.C40.aliasing_partition_array_breaks_store",
 ]
 BUILDS = {"h": ("root", "./cmd/verif_c40", ["C40"])}
 LEVEL_TEXT = ("Lean 4: over the table REGENERATED from the source (per registered MCP tool, the metadata.Store methods reachable "
@@ -25,7 +26,9 @@ LEVEL_TEXT = ("Lean 4: over the table REGENERATED from the source (per registere
               "else (tools_read_only, decide); read-only calls are the identity on the store model and every other Store method "
               "provably is not (reads_preserve_state, mutators_change_state); hence any sequence of calls a tool can make, with any "
               "arguments, leaves the state unchanged (tool_calls_preserve_state); same for the hand-written handler models "
-              "(runTool_preserves_state) whose outputs are compared with the real tools.")
+              "(runTool_preserves_state) whose outputs are compared with the real tools; on a nested heap model (topics array -> "
+              "partitions arrays -> replica arrays) the deep clone hands out only fresh buffers at every level and no handler write "
+              "into them changes what the store holds (read_returns_fresh_buffers, handler_writes_preserve_store).")
 LEVEL_NOTE = ("Trusted: Lean kernel; the go/ast extractor (call graph restricted to internal/mcpserver, Store methods recognised by "
               "name, any other use of the store value counted as an escape); that the real read methods do not write is validated, not "
               "proved: full snapshots of InMemoryStore and of EtcdStore (etcd key dump + cached metadata) before/after every call "
@@ -36,11 +39,18 @@ ASSUMPTIONS = [
     "Store methods are recognised by name in internal/mcpserver; a call through reflection or through another package is only caught by the before/after snapshots",
     "topic/group/member ids are single digits (string order = numeric order in the canonical output)",
     "ALIASING: the Store-call model (`exec`) has immutable values, i.e. it assumes every read returns a COPY; that assumption is "
-    "stated and proved separately on a heap model (reads hand out only fresh buffers, so no handler write can reach a store-owned "
-    "buffer: read_returns_fresh_buffers, handler_writes_preserve_store; without the clone it fails: aliasing_read_breaks_store) and "
-    "is VALIDATED on the real stores by this run: stores are populated with non-ascending, duplicate-carrying Replicas/ISR/"
-    "OfflineReplicas lists, every tool is called with explicit topic subsets, 1-3 times in a row, and the before/after snapshots "
-    "are order-sensitive for every list",
+    "stated and proved separately on a typed, NESTED heap model (topics array -> partitions arrays -> replica/ISR/offline arrays; "
+    "cloneMetadata hands out only fresh buffers at every level, so no handler write into anything reachable from the result can "
+    "reach a store-owned buffer: read_returns_fresh_buffers, handler_writes_preserve_store; without the clone it fails, for a "
+    "replica list (aliasing_read_breaks_store) and for the partitions array of a by-value topic copy "
+    "(aliasing_partition_array_breaks_store)) and is VALIDATED on the real stores by this run: stores are populated with topics "
+    "whose PARTITIONS ARRAY is stored in non-ascending id order (2,0,1; duplicate ids; gaps) and whose Replicas/ISR/"
+    "OfflineReplicas lists (and group subscriptions / assignments) are non-ascending and duplicate-carrying, every tool is called "
+    "with explicit topic subsets (the by-name form takes its own path through the store), 1-3 times in a row, and the "
+    "before/after snapshots are order-sensitive for every list at every level (topics, partitions, replicas, isr, offline; "
+    "groups and configs as deterministic protobuf bytes)",
+    "the broker list is always stored in ascending node-id order (its clone is a flat copy of value structs); a handler that "
+    "reorders a shared broker array would only be seen if another run stored it unsorted",
 ]
 
 GEN = os.path.join(lib.LEAN, "KafVerif", "Gen", "C40McpCalls.lean")
@@ -174,15 +184,23 @@ def gen_call(rng, tools, known=()):
     return "call %s" % t
 
 
+N_PART_ORDERS = 7    # rows of partOrderTable (Go harness and Lean model)
+
+
 def gen_case(rng, tools, first=False):
     ops = ["new %d" % (2 if first else rng.choice([0, 1, 1, 2, 3]))]
     known = []
-    for _ in range(3 if first else rng.below(5)):
+    unsorted = []     # topics whose Partitions ARRAY is stored in non-ascending partition-id order
+    for k in range(4 if first else rng.below(5)):
         t = rng.below(10)
         if t in known:
             continue
         known.append(t)
-        if first or rng.chance(2, 3):
+        if (first and k == 0) or (not first and rng.chance(2, 5)):
+            # partitions array itself out of order (ids 2,0,1 / duplicates / gaps), lists inside non-ascending too
+            ops.append("ptopic %d %d %d" % (t, 0 if first else rng.below(N_PART_ORDERS), rng.below(12)))
+            unsorted.append(t)
+        elif first or rng.chance(2, 3):
             # multi-partition topic whose replica / ISR / offline lists are non-ascending and carry duplicates
             ops.append("rtopic %d %d %d" % (t, rng.choice([1, 2, 3, 4]) if not first else 3, rng.below(12)))
         else:
@@ -206,15 +224,33 @@ def gen_case(rng, tools, first=False):
             known.append(x)
         for t in tools:   # every registered tool at least once, in table order, with explicit names where it takes any
             emit(gen_call(rng, [t], known))
+        for t in unsorted:   # the by-name form on a topic whose partitions array is stored out of order, alone
+            emit("call describe_topics %d" % t)
+            emit("call fetch_offsets 1 %d" % t)
         emit("call describe_topics %s" % ",".join(str(x) for x in known))
         emit("call fetch_offsets 1 %s" % ",".join(str(x) for x in known))
         emit("call describe_configs %s" % ",".join(str(x) for x in known[:2]))
     for _ in range(rng.range(8, 20)):
         if rng.chance(1, 4):
             ops.append(gen_load(rng))
+        elif unsorted and rng.chance(1, 4):
+            # explicit names that include an out-of-order topic (the all-topics form takes another path in the store)
+            ns = [rng.choice(unsorted)] + [x for x in known if rng.chance(1, 3)]
+            ns = [ns[i] for i in rng_perm(rng, len(ns))]
+            tool = rng.choice(["describe_topics", "describe_topics", "fetch_offsets", "describe_configs"])
+            arg = ",".join(str(x) for x in ns)
+            emit("call %s %s" % (tool, ("%s %s" % (rng.choice(["0", "1", "2"]), arg)) if tool == "fetch_offsets" else arg))
         else:
             emit(gen_call(rng, tools, known))
     return ops
+
+
+def rng_perm(rng, n):
+    idx = list(range(n))
+    for i in range(n - 1, 0, -1):
+        j = rng.below(i + 1)
+        idx[i], idx[j] = idx[j], idx[i]
+    return idx
 
 
 # ------------------------------------------------------------------ monitor / compare
@@ -325,6 +361,11 @@ def run(ck):
                 ck.count("tool:" + op.split()[1] if op.split()[1] in tools else "tool:(unregistered)")
         populated = any(o.startswith("commit") for o in ops) and any(o.startswith("group") for o in ops)
         ck.count("topics_with_unsorted_replica_lists", sum(1 for o in ops if o.startswith("rtopic")))
+        pts = set(o.split()[1] for o in ops if o.startswith("ptopic"))
+        ck.count("topics_with_unsorted_partition_arrays", len(pts))
+        ck.count("by_name_calls_on_unsorted_partition_arrays",
+                 sum(1 for o in ops if o.startswith("call ") and len(o.split()) > 2 and o.split()[1] in ("describe_topics", "describe_configs", "fetch_offsets")
+                     and pts & set(o.split()[-1].split(","))))
         ck.count("describe_topics_with_explicit_names", sum(1 for o in ops if o.startswith("call describe_topics ") and not o.endswith(" -")))
         ck.count("repeated_calls", sum(1 for x, y in zip(ops, ops[1:]) if x == y and x.startswith("call")))
         ck.case(tuple(ops), nontrivial=(len(answered) >= 4 and populated), sample={"ops": ops[:8], "impl": io[:8]})
